@@ -411,6 +411,19 @@ PROPS = {
         real_vs_stub="real: dump.Dumper (tar, zip, writeNode), walker.Walk, bloblru.Cache, data tree decoder; stub: blob loader",
         assumptions=SIM_ASSUME,
     ),
+    "C46": dict(
+        pkg="internal/fuse", test="TestVerifC46", level="exploration", quick_s=30, thorough_s=600,
+        text="the real fuse file / openFile code (Open, Read) over a stub repository: files of 0-7 blobs (0, 1, 5, 100, 4096, 70000 bytes, repeated "
+             "blobs, empty blobs, optionally a wrong recorded size), a blob cache of 200 bytes to 64 MiB so that entries are evicted and reloaded, "
+             "1-4 concurrent readers each issuing 1-6 reads whose offsets lie within two bytes of every blob boundary or past the end and whose "
+             "sizes range from 0 to 128 KiB; blob loads complete in the order the seeded scheduler decides; every read returns exactly the "
+             "requested range of the file's content (empty past the end)",
+        note="the kernel FUSE transport is not involved; blob loader stubbed",
+        design_ref="3 / C46",
+        rule="one run = generated blob layout x cache size x read plans x seeded schedule; distinct = distinct event-log hash among runs with a real scheduling choice",
+        real_vs_stub="real: fuse.file, fuse.openFile, bloblru.Cache; stub: repository (LookupBlobSize, LoadBlob)",
+        assumptions=SIM_ASSUME,
+    ),
     "C47": dict(
         pkg="internal/bloblru", test="TestVerifC47", level="exploration", quick_s=25, thorough_s=600,
         text="seeded search over schedules of concurrent GetOrCompute calls (every mutex acquisition and every computation is a scheduling "
